@@ -47,7 +47,8 @@ L0 == [k |-> "", name |-> "", pkg |-> "a",
        s |-> "", sel |-> <<>>, all |-> FALSE,
        iface |-> "", conc |-> "",
        parent |-> "", names |-> <<>>,
-       expr |-> "", inacc |-> FALSE]
+       expr |-> "", inacc |-> FALSE,
+       alias |-> FALSE]     \* the renderer spells the leaf's own type through a type alias (type A_T = T): same type, other spelling
 \* provider function   func name(ins...) (out [, func()] [, error])
 Func(name, ins, out, cl, er) ==
   [L0 EXCEPT !.k = "func", !.name = name, !.ins = ins, !.out = out, !.cl = cl, !.er = er]
